@@ -54,8 +54,8 @@ def replay(chk, path):
 def selftest(chk):
     t = record("roundtrip", chk.path("st.ndjson"), seed=chk.seed, per_type=1, hostile=1)
     def mut(o):
-        if o["ev"] == "RtA" and o.get("out2") == "ok" and len(o["f2"]) > 12:
-            o["f2"][8] ^= 1
+        if o["ev"] == "RtA" and o.get("out2") == "ok" and "d2" in o:
+            o["eq12"] = False
             return True
         return False
     corrupt_one_field(t, chk.path("st_bad.ndjson"), mut)
